@@ -103,6 +103,19 @@ Proof. exact src_good. Qed.
 Theorem C14_src_authenticate_is_model : forall pp q i dg l s, Connection_authenticate pp q i dg l s = emb (authenticate (pp q) q i dg l s).
 Proof. exact Connection_authenticate_eq. Qed.
 
+Theorem C14_src_on_auth_is_model : forall store async_store (pp : nat -> state -> res) q i dg s,
+  to_resb (Connection_on_auth store async_store pp q i dg s) = on_auth store async_store (pp q) q i dg s.
+Proof. exact Connection_on_auth_eq. Qed.
+Theorem C14_src_completion_is_model : forall (pp : nat -> state -> res) q r i dg rest s, pending (conns s q) = (i, dg) :: rest ->
+  Connection_on_auth_result pp q r i dg s =
+  let s1 := modc q (set_pending rest) s in
+  match r with
+  | RRaise => BOk false (bad q s1)
+  | RLook l => match authenticate (pp q) q i dg l s1 with
+               | Ok s2 => BOk false s2 | Raise s2 => BOk false (cl q s2) | Fuel s2 => BFuel s2 end
+  end.
+Proof. exact Connection_on_auth_result_eq. Qed.
+
 Print Assumptions C14_auth_parks.
 Print Assumptions C14_paused_ignores_data.
 Print Assumptions C14_parked_untouched.
@@ -115,3 +128,5 @@ Print Assumptions C14_auth_read_parks.
 Print Assumptions C14_src_run_is_model.
 Print Assumptions C14_src_good_always.
 Print Assumptions C14_src_authenticate_is_model.
+Print Assumptions C14_src_on_auth_is_model.
+Print Assumptions C14_src_completion_is_model.
